@@ -118,11 +118,18 @@ def check_property(pid, tier="quick", seed=0):
     # ---- functions that left the modelled subset (or lost their loop invariant): bounded search on
     # the same contract stands in; a failing input is a violation, otherwise the property is undecided
     incomplete = [r for r in results if r.get("incomplete")]
-    for r in unsupported + incomplete:
+    pending = [{"qualname": r["qualname"], "unit": r["unit"], "why": "function outside the modelled subset: " + str(r["unsupported"] or r.get("incomplete"))}
+               for r in unsupported + incomplete]
+    seen_units = set()
+    for o in unknown:
+        if o["unit"] not in seen_units:
+            seen_units.add(o["unit"])
+            pending.append({"qualname": o["unit"].split("[")[0], "unit": o["unit"], "why": f"obligation {o['name']} undecided by both solvers"})
+    for r in pending:
         if violations or not hasattr(mod, "replay"):
             break
         pseudo = {"name": r["qualname"] or r["unit"], "unit": r["unit"], "model": {}, "site": None, "solver": None,
-                  "seconds": 0, "note": "function outside the modelled subset: " + str(r["unsupported"] or r.get("incomplete"))}
+                  "seconds": 0, "note": r["why"]}
         try:
             rep = mod.replay(pseudo, seed) or {}
         except Exception as e:  # noqa
@@ -131,8 +138,7 @@ def check_property(pid, tier="quick", seed=0):
             os.makedirs(replay_dir, exist_ok=True)
             path = os.path.join(replay_dir, f"{safe(pseudo['name'])}-bounded-search.json")
             with open(path, "w") as f:
-                json.dump({"property": pid, "obligation": pseudo["name"] + " (contract checked by bounded search; the function is outside "
-                           "the modelled subset so no VC was generated)", "note": pseudo["note"], "reproduced_on_real_code": True,
+                json.dump({"property": pid, "obligation": pseudo["name"] + " (contract checked by bounded search: " + pseudo["note"] + ")", "note": pseudo["note"], "reproduced_on_real_code": True,
                            "replay_spec": rep.get("spec"), "input": rep.get("input"), "expected": rep.get("expected"),
                            "observed": rep.get("observed"), "key": rep.get("key"), "repo": extract.REPO}, f, indent=1, default=str)
             key = rep.get("key")
